@@ -14,6 +14,7 @@ import (
 func init() {
 	register(&Scenario{
 		Prop:      "C36",
+		Preempt:   true,
 		Run:       runC36,
 		NeedsRace: true,
 		Real: []string{
